@@ -4,7 +4,7 @@
    bound on a new bond is the truncation rule of C10 (Trunc/Select.v).  Statements only. *)
 From Coq Require Import List Arith ZArith QArith.
 From PTN Require Import Tree.RTree Tree.Nav Tree.UpdatePath Tree.CachePath Tree.Enum Tree.EnumProofs
-     Sched.TDVP Sched.TDVPProofs Sched.TDVPMore Sched.TDVPFresh Sched.TDVPBounded Trunc.Select Trunc.SelectProofs.
+     Sched.TDVP Sched.TDVPProofs Sched.TDVPMore Sched.TDVPFresh Sched.TDVPBounded Sched.TDVPUniversal Trunc.Select Trunc.SelectProofs.
 Import ListNotations.
 Local Close Scope Q_scope.
 
@@ -43,6 +43,14 @@ Theorem C07_durations_bounded_10 : forall t, In t (trees_upto 10) -> 2 <= size t
      (forall a b f, In (Link a b f) tr \/ In (TwoSite a b f) tr -> adjacent t a b).
 Proof. intros t H1 H2. exact (proj2 (proj2 (durations_bounded_10 t H1 H2))). Qed.
 Print Assumptions C07_durations_bounded_10.
+
+(* ... and the UNIVERSAL statement (every tree with unique identifiers; Sched/TDVPUniversal.v) *)
+Theorem C07_durations : forall t tr, NoDup (ids t) -> trace2s t = Some tr ->
+     (forall x, In x (ids t) -> node_dur x tr = (2 - 2 * Z.of_nat (degree t x))%Z) /\
+     (forall p c, In (p, c) (edges t) -> edge_dur p c tr = 2%Z) /\
+     (forall a b f, In (Link a b f) tr \/ In (TwoSite a b f) tr -> adjacent t a b).
+Proof. exact trace2s_durations. Qed.
+Print Assumptions C07_durations.
 
 (* ---- centre on the updated pair, pairs adjacent, every block read is fresh, the step ends
         with the centre on update_path[0] (two consecutive steps, no re-initialisation): bounded - *)
